@@ -5,6 +5,7 @@ pub mod gen {
 }
 mod c04;
 mod c04m;
+mod c04s;
 mod c06l;
 mod c09;
 mod c18l;
